@@ -4,13 +4,28 @@
 (* from the message's declaration                                           *)
 (*     c = [level   : "open" | "hybrid" | "opaque",                         *)
 (*          fields  : sequence of [n : name, mem : in the oneof?, rep :     *)
-(*                    repeated?]   (field number = position, proto2 int32), *)
+(*                    repeated?, dflt : explicit default value?]            *)
+(*                    (field number = position, proto2 int32),              *)
 (*          oname   : name of the (single) oneof, used iff some mem,        *)
-(*          nested  : names of nested messages, enums : of nested enums]    *)
+(*          nested  : names of nested messages, enums : of nested enums,    *)
+(*          nfields : per nested message the names of its fields (plain     *)
+(*                    optional int32 fields with an explicit default),      *)
+(*          evals   : per nested enum the names of its values (none: one    *)
+(*                    value ZZ_VALUE_<k>),                                  *)
+(*          exts    : names of extension fields declared inside M,          *)
+(*          tenum   : at most one TOP-LEVEL enum [n : name, vals : names    *)
+(*                    of its values] next to M in the file t.proto]         *)
 (* to the identifiers that protoc-gen-go declares:                          *)
 (*   Members(c)  struct fields and methods of type M     (one namespace)    *)
 (*   Builder(c)  struct fields and methods of M_builder  (hybrid, opaque)   *)
-(*   Pkg(c)      package-level identifiers derived from M's content         *)
+(*   Pkg(c)      package-level identifiers derived from M's content: the    *)
+(*               types of M, its builder, nested messages and enums, oneof  *)
+(*               interface / case / wrapper types and case constants, the   *)
+(*               constants Default_<Message>_<Field> of fields with an      *)
+(*               explicit default (of M and of its nested messages), the    *)
+(*               enum value constants <Parent>_<VALUE> and the enum maps    *)
+(*               <Enum>_name / <Enum>_value, the extension variables        *)
+(*               E_<Message>_<Field>, the file variable File_t_proto        *)
 (* as sequences WITH repetitions.  The property (C42) demands that none of  *)
 (* them contains a repetition.  Transcribed from compiler/protogen:         *)
 (* newMessage (GoCamelCase, makeNameUnique with its reserved-name table,    *)
@@ -51,6 +66,13 @@ S_isM_ == <<105, 115, 77, 95>>
 S_case_M_ == <<99, 97, 115, 101, 95, 77, 95>>
 S_not_set_case == <<95, 110, 111, 116, 95, 115, 101, 116, 95, 99, 97, 115, 101>>
 S_case == <<95, 99, 97, 115, 101>>
+S_Default_ == <<68, 101, 102, 97, 117, 108, 116, 95>>                                       \* "Default_"
+S_name == <<95, 110, 97, 109, 101>>                                                          \* "_name"
+S_value == <<95, 118, 97, 108, 117, 101>>                                                    \* "_value"
+S_E_ == <<69, 95>>                                                                           \* "E_"
+S_File_t_proto == <<70, 105, 108, 101, 95, 116, 95, 112, 114, 111, 116, 111>>                \* "File_t_proto"
+S_ZZBase == <<90, 90, 66, 97, 115, 101>>                                                     \* "ZZBase": the message the extensions extend
+S_ZZ_VALUE_ == <<90, 90, 95, 86, 65, 76, 85, 69, 95>>                                        \* "ZZ_VALUE_"
 
 RECURSIVE Cat(_, _)                       \* F[i] \o F[i+1] \o ... for a sequence F of sequences
 Cat(F, i) == IF i > Len(F) THEN <<>> ELSE F[i] \o Cat(F, i + 1)
@@ -85,6 +107,15 @@ Assign(c, i, st) == IF i > NF(c) THEN st ELSE Let(AssignStep(c, i, st), LAMBDA s
 GoNamesOf(c) == Assign(c, 1, [used |-> ReservedNames, go |-> <<>>, ogo |-> <<>>])
 
 \* Go identifiers of nested messages and enums: GoCamelCase of the name relative to the package
+NestedIdent(c, k) == GoCamelCase(S_Mdot \o c.nested[k])
+EnumIdent(c, k) == GoCamelCase(S_Mdot \o c.enums[k])
+\* a nested message is a message of its own: its fields get their Go names by the same makeNameUnique loop
+SubDecl(c, k) == [level |-> c.level, oname |-> <<>>, nested |-> <<>>, enums |-> <<>>, nfields |-> <<>>, evals |-> <<>>,
+                  exts |-> <<>>, tenum |-> <<>>,
+                  fields |-> [j \in 1..Len(c.nfields[k]) |-> [n |-> c.nfields[k][j], mem |-> FALSE, rep |-> FALSE, dflt |-> TRUE]]]
+SubGo(c, k) == GoNamesOf(SubDecl(c, k)).go
+\* the values of nested enum k (an enum needs one value: ZZ_VALUE_<k-1> when the declaration names none)
+EnumVals(c, k) == IF c.evals[k] = <<>> THEN <<S_ZZ_VALUE_ \o Decimal(k - 1)>> ELSE c.evals[k]
 NestedIdents(c) == {GoCamelCase(S_Mdot \o c.nested[k]) : k \in 1..Len(c.nested)}
                    \cup {GoCamelCase(S_Mdot \o c.enums[k]) : k \in 1..Len(c.enums)}
 \* oneof wrapper type of a member field: M_<GoName>, '_' appended while it equals a nested message/enum identifier
@@ -184,6 +215,20 @@ PkgDecls(c, n) ==
   \o Cat([i \in 1..NF(c) |-> IF c.fields[i].mem THEN <<D(Wrapper(c, n.go[i]), "type.wrapper")>>
                                                      \o Opt(notOpen, D(S_M_ \o n.go[i] \o S_case, "const.case"))
                              ELSE <<>>], 1)
+  \* genMessageDefaultDecls: "Default_" + <message GoIdent> + "_" + <field GoName>, at every API level
+  \o Cat([i \in 1..NF(c) |-> Opt(c.fields[i].dflt, D(S_Default_ \o S_M_ \o n.go[i], "const.default"))], 1)
+  \o Cat([k \in 1..Len(c.nested) |-> Let(SubGo(c, k), LAMBDA sg :
+            [j \in 1..Len(sg) |-> D(S_Default_ \o NestedIdent(c, k) \o <<US>> \o sg[j], "const.default")])], 1)
+  \* newEnumValue: <parent message GoIdent> + "_" + <value name> (not camel-cased); genEnum: the two maps
+  \o Cat([k \in 1..Len(c.enums) |-> Let(EnumVals(c, k), LAMBDA vs : [j \in 1..Len(vs) |-> D(S_M_ \o vs[j], "const.enumvalue")])
+                                     \o <<D(EnumIdent(c, k) \o S_name, "var.enummap"), D(EnumIdent(c, k) \o S_value, "var.enummap")>>], 1)
+  \* extensions declared in M: "E_" + <M's GoIdent> + "_" + GoCamelCase(name); the file descriptor variable
+  \o [k \in 1..Len(c.exts) |-> D(S_E_ \o S_M_ \o GoCamelCase(c.exts[k]), "var.extension")]
+  \o <<D(S_File_t_proto, "var.file")>>
+  \* a top-level enum: its type, <Enum>_<VALUE> constants, maps
+  \o Cat([k \in 1..Len(c.tenum) |-> Let(GoCamelCase(c.tenum[k].n), LAMBDA id :
+            <<D(id, "type.topenum")>> \o [j \in 1..Len(c.tenum[k].vals) |-> D(id \o <<US>> \o c.tenum[k].vals[j], "const.enumvalue")]
+            \o <<D(id \o S_name, "var.enummap"), D(id \o S_value, "var.enummap")>>)], 1)
 NamesOf(ds) == [k \in 1..Len(ds) |-> ds[k].n]
 MembersN(c, n) == NamesOf(MemberDecls(c, n))
 BuilderN(c, n) == NamesOf(BuilderDecls(c, n))
@@ -210,6 +255,8 @@ Cause(rs) ==                                 \* rs: the set of roles sharing one
           /\ rs \cap {"field.Get", "field.GetCompat", "field.Set", "field.Has", "field.Clear"} # {}
        THEN "struct-field-vs-accessor"         \* hybrid: struct fields carry the mangled GoName, accessors the camelCase
   ELSE IF "field.GetCompat" \in rs THEN "hybrid-compat-getter"              \* Get<GoName> next to Get[_]<camelCase>
+  ELSE IF "const.enumvalue" \in rs THEN "enum-value-const-collides"         \* <Parent>_<VALUE> is checked against nothing
+  ELSE IF rs \subseteq {"const.default"} THEN "default-const-collides"     \* Default_<Msg>_<Field>: '_' is no separator
   ELSE IF "type.wrapper" \in rs THEN "oneof-wrapper-suffix"                 \* '_' suffixing ignores other wrapper types
   ELSE IF rs \subseteq {"field.Get", "field.Set", "field.Has", "field.Clear", "builder.field"}
        THEN "camelcase-suffix-collides"                                      \* <camel>_<num> equals another field's camelCase
@@ -224,9 +271,19 @@ Why(c) == Let(Naming(c), LAMBDA n : WhyN(c, n))
 Distinct(c) == Why(c) = {}
 
 \* a declaration is well-formed for protobuf: names are identifiers and pairwise distinct within M's scope
-\* (fields, the oneof, nested messages and enums share one scope)
+\* (fields, the oneof, nested messages, enums AND the values of these enums, and extensions declared in M share one scope)
 ScopeNames(c) == [i \in 1..NF(c) |-> c.fields[i].n] \o Opt(HasOneof(c), c.oname) \o c.nested \o c.enums
-WellFormed(c) == /\ \A x \in Range(ScopeNames(c)) : IsProtoIdent(x)
+                 \o Cat([k \in 1..Len(c.enums) |-> EnumVals(c, k)], 1) \o c.exts
+\* the package scope of t.proto: M, the extendable message, the top-level enum and its values
+PkgScopeNames(c) == <<S_M, S_ZZBase>> \o Cat([k \in 1..Len(c.tenum) |-> <<c.tenum[k].n>> \o c.tenum[k].vals], 1)
+WellFormed(c) == /\ Len(c.nfields) = Len(c.nested) /\ Len(c.evals) = Len(c.enums)
+                 /\ Len(c.tenum) <= 1 /\ \A k \in 1..Len(c.tenum) : Len(c.tenum[k].vals) >= 1
+                 /\ \A x \in Range(PkgScopeNames(c)) : IsProtoIdent(x)
+                 /\ Let(PkgScopeNames(c), LAMBDA sn : NoDup(sn))
+                 /\ \A x \in Range(ScopeNames(c)) : IsProtoIdent(x)
+                 /\ \A k \in 1..Len(c.nested) : /\ \A x \in Range(c.nfields[k]) : IsProtoIdent(x)
+                                                 /\ Let(c.nfields[k], LAMBDA nf : NoDup(nf))
+                 /\ \A i \in 1..NF(c) : ~(c.fields[i].dflt /\ c.fields[i].rep)
                  /\ Let(ScopeNames(c), LAMBDA sn : NoDup(sn))
                  /\ \A i \in 1..NF(c) : ~(c.fields[i].mem /\ c.fields[i].rep)
                  /\ \A i, j \in 1..NF(c) : (i < j /\ c.fields[i].mem /\ c.fields[j].mem) =>     \* members are consecutive
